@@ -252,6 +252,10 @@ def routeVerdict (m : Mon) (cc : World.CliConf) (sc : World.SrvConf) (sname : St
 
 /-- C08 on a reply the proxy produced itself for a fresh (not retransmitted) request -/
 def localVerdict (m : Mon) (cc : World.CliConf) (rq out : Bytes) (trToks : List String) : String :=
+  -- whatever the realm says, a reply the proxy makes itself is of the kind that answers the request
+  if codeOf rq = 1 && codeOf out != 3 then "bad C08:access-request-answered-locally-with-something-other-than-access-reject"
+  else if codeOf rq = 4 && codeOf out != 5 then "bad C08:accounting-request-answered-locally-with-something-other-than-accounting-response"
+  else
   if cc.rwUser.isSome || rwTouches cc.rwIn 1 then "ok" else
   let eapMayReject := m.cfg.opts.verifyEap && (attrsOf rq).any (·.1 = 79)
   match firstOf 1 rq with
@@ -442,6 +446,10 @@ def monOp0 (m : Mon) (op : String) (args : List String) (impl : List String) (tr
                  else if codeOf b != codeOf pkt then "bad C01:code-changed"
                  else if !frameOk m cc sc pkt b then "bad C01:untouched-attributes-not-preserved"
                  else if World.loopPrevents m.cfg.opts cc sc then "bad C13:request-forwarded-back-to-the-peer-it-came-from"
+                 else if (attrsOf pkt).any (·.1 = 3) && !(attrsOf pkt).any (·.1 = 60) &&
+                         ![cc.rwIn, sc.rwOut].any (fun r => rwTouches r 3 || rwTouches r 60) &&
+                         (attrsOf b).any (·.1 = 3) && firstOf 60 b != some (authOf pkt) then
+                   "bad C01:chap-challenge-not-completed-from-the-clients-request-authenticator"
                  else if routeVerdict m cc sc s b trToks ≠ "ok" then routeVerdict m cc sc s b trToks
                  else if selectVerdict m sc s b trToks ≠ "ok" then selectVerdict m sc s b trToks
                  else if userPwdVerdict cc sc pkt b ≠ "ok" then userPwdVerdict cc sc pkt b
@@ -469,8 +477,20 @@ def monOp0 (m : Mon) (op : String) (args : List String) (impl : List String) (tr
       let m := { m with tx := (sends.map fun (_, b) =>
                     (name, b, m.now, 1 + ((m.tx.find? fun (s', b', _, _) => s' = name && b' == b).map (·.2.2.2)).getD 0)) ++
                   (m.tx.filter fun (s', b', _, _) => !(sends.any fun (_, b) => s' = name && b' == b)) }
+      -- C11: in a writer pass an ordinary request's identifier is released only when its deadline has passed
+      -- (it was transmitted, and RetryInterval seconds have gone by since its last transmission)
+      let releasedEarly :=
+        let before := ((m.slots.find? (·.1 = name)).map (·.2)).getD []
+        let after := (((digestSlots out).find? (·.1 = name)).map (·.2)).getD []
+        (before.filter fun (i, _) => !(after.any (·.1 = i))).any fun (i, _) =>
+          match m.fwds.find? fun f => f.srv = name && f.slot = i with
+          | some f => (match m.tx.find? fun (s', b', _, _) => s' = name && b' == f.pkt with
+                       | none => true
+                       | some (_, _, t, _) => decide (m.now < t + sc.retryInterval))
+          | none => false
       let verdict :=
-        if early then "bad C12:retransmitted-sooner-than-RetryInterval"
+        if releasedEarly then "bad C11:identifier-of-an-unanswered-request-released-before-its-deadline"
+        else if early then "bad C12:retransmitted-sooner-than-RetryInterval"
         else if tooMany then "bad C12:transmitted-more-than-RetryCount+1-times"
         else if probeTwice then "bad C12:status-server-probe-retransmitted"
         else if sends.any fun (s, _) => s ≠ name then "bad C12:sent-on-another-server"
